@@ -4,11 +4,12 @@
 set -u
 cd "$(dirname "$0")"
 export CARGO_NET_OFFLINE=true
-export CARGO_TARGET_DIR=/verif/target
-mkdir -p /verif/target
-if ! cargo build --release --offline -p simcheck >/verif/target/build.log 2>&1; then
-  echo "BUILD-ERROR: simcheck failed to build against /repo (see /verif/target/build.log)" >&2
-  grep -E "^error" -A12 /verif/target/build.log | head -60 >&2
+T="${SIM_TARGET_DIR:-/verif/target}"
+export CARGO_TARGET_DIR="$T"
+mkdir -p "$T"
+if ! cargo build --release --offline -p simcheck >"$T/build.log" 2>&1; then
+  echo "BUILD-ERROR: simcheck failed to build against /repo (see $T/build.log)" >&2
+  grep -E "^error" -A12 "$T/build.log" | head -60 >&2
   exit 2
 fi
 exit 0
